@@ -1,6 +1,7 @@
 (* Lemmas for C13: the engine model on the table of a marshalled summary. *)
 From Coq Require Import List String Ascii QArith ZArith Bool Arith Lia.
 From Crem Require Import Base.Res CsvTable CsvTableProofs GoCast GoCastProofs SummaryRoundTrip.
+From Crem Require BoolArchive BoolArchiveProofs.
 Import ListNotations.
 Local Open Scope string_scope.
 Local Open Scope nat_scope.
@@ -86,6 +87,7 @@ Definition drow : srow := mkRow "" [] "" "".
 (* ---------- the table of a marshalled summary ---------- *)
 
 Section Summary.
+  Variable nw : nat.
   Variable cast : caster.
   Variable fmt : num -> string.
   Variable asis : list (string * num).
@@ -211,32 +213,44 @@ Section Summary.
 
   (* ---------- unpacking well-formedness ---------- *)
 
-  Lemma row_ok_inv : forall r, row_ok nv r = true ->
+  Lemma row_ok_parts : forall r, row_ok nw nv r = true ->
+    actions_decodable nw (r_enc r) = true /\
     len (r_values r) = nv /\ is_text (r_note r) = true /\
     forallb is_number (r_values r) = true /\ actions_pattern_ok (r_enc r) = true.
   Proof.
     intros r H. unfold row_ok in H.
-    repeat (apply andb_prop in H; destruct H as [H ?]).
-    apply Nat.eqb_eq in H. unfold actions_pattern_ok. repeat split; assumption.
+    apply andb_prop in H. destruct H as [Hdec H]. unfold row_shape_ok in H.
+    apply andb_prop in H. destruct H as [H Hhex].
+    apply andb_prop in H. destruct H as [H Hnum].
+    apply andb_prop in H. destruct H as [Hlen Htext].
+    apply Nat.eqb_eq in Hlen. unfold actions_pattern_ok. repeat split; assumption.
   Qed.
+
+  Lemma row_ok_inv : forall r, row_ok nw nv r = true ->
+    len (r_values r) = nv /\ is_text (r_note r) = true /\
+    forallb is_number (r_values r) = true /\ actions_pattern_ok (r_enc r) = true.
+  Proof. intros r H. apply (proj2 (row_ok_parts r H)). Qed.
+
+  Lemma row_ok_decodable : forall r, row_ok nw nv r = true -> actions_decodable nw (r_enc r) = true.
+  Proof. intros r H. apply (proj1 (row_ok_parts r H)). Qed.
 
   Record wf_facts (sm : list srow) : Prop := {
     wf_nonempty : sm <> [];
     wf_label0 : r_label (hd drow sm) = "As-Is";
     wf_asis : asis_values_match asis (hd drow sm) = true;
-    wf_rows : forall r, In r sm -> row_ok nv r = true;
+    wf_rows : forall r, In r sm -> row_ok nw nv r = true;
     wf_nodup : nodup_labels (map r_label sm) = true;
     wf_names : forall p, In p asis -> reserved_heading (fst p) = false;
     wf_names_nodup : nodup_labels (map fst asis) = true }.
 
-  Lemma wf_summary_inv : forall sm, wf_summary asis sm = true -> wf_facts sm.
+  Lemma wf_summary_inv : forall sm, wf_summary nw asis sm = true -> wf_facts sm.
   Proof.
     intros [|r0 rest] H; cbn [wf_summary] in H; [discriminate|].
     repeat (apply andb_prop in H; destruct H as [H ?]).
     apply String.eqb_eq in H.
     constructor; cbn [hd]; try assumption.
     - discriminate.
-    - intros r Hin. match goal with Hf : forallb (row_ok _) _ = true |- _ => rewrite forallb_forall in Hf; apply Hf; exact Hin end.
+    - intros r Hin. match goal with Hf : forallb (row_ok _ _) _ = true |- _ => rewrite forallb_forall in Hf; apply Hf; exact Hin end.
     - intros p Hin. match goal with Hf : forallb (fun p => negb (reserved_heading (fst p))) _ = true |- _ =>
         rewrite forallb_forall in Hf; specialize (Hf p Hin); apply negb_true_iff in Hf; exact Hf end.
   Qed.
@@ -384,10 +398,17 @@ Section Summary.
     apply in_map. apply (nth_error_In _ _ Hr).
   Qed.
 
-  Lemma verify_ok : verify_summary fmt asis t = Ok true.
+  Lemma verify_ok : verify_summary nw fmt asis t = Ok true.
   Proof.
     unfold verify_summary. unfold t at 1. rewrite dims_summary. cbn [res_bind fst snd].
     fold nv. replace (nv + 3 <? nv + 3) with false by (symmetry; apply Nat.ltb_irrefl).
+    replace (nv + 3 - 2) with (S nv) by lia.
+    rewrite all_res_early_true.
+    2:{ intros x Hx. apply in_map_iff in Hx. destruct Hx as [row [<- Hrow]]. apply in_seq in Hrow.
+        destruct (nth_error sm row) as [r|] eqn:Er; [|apply nth_error_None in Er; lia].
+        rewrite (enc_cell row r Er). cbn [res_bind].
+        rewrite (row_ok_decodable r (wf_rows sm W r (nth_error_In _ _ Er))). reflexivity. }
+    cbn [res_bind negb].
     apply all_res_early_true. intros x Hx. apply in_map_iff in Hx. destruct Hx as [row [<- Hrow]]. apply in_seq in Hrow.
     destruct (nth_error sm row) as [r|] eqn:Er; [|apply nth_error_None in Er; lia].
     rewrite (label_cell row r Er). cbn [res_bind].
@@ -399,7 +420,7 @@ Section Summary.
 
   (* whatever the engine held before (any table, any pool): the table is replaced and the pool emptied *)
   Lemma post_ok : forall st,
-    post_solutions cast fmt asis st (CsvRecords (marshal_records names sm)) = Ok (S200, mkState (Some t) []).
+    post_solutions nw cast fmt asis st (CsvRecords (marshal_records names sm)) = Ok (S200, mkState (Some t) []).
   Proof.
     intros st. unfold post_solutions. rewrite derive_ok. cbn [res_bind]. rewrite verify_ok. reflexivity.
   Qed.
@@ -565,43 +586,43 @@ Definition loaded (cast : caster) (asis : list (string * num)) (sm : list srow)
            (pool : list (string * (string * string))) : state :=
   mkState (Some (summary_table cast asis sm)) pool.
 
-Lemma c13_accepts : forall cast fmt asis sm st, cast_agrees cast ->
-  wf_summary asis sm = true ->
-  post_solutions cast fmt asis st (CsvRecords (marshal_records (map fst asis) sm)) =
+Lemma c13_accepts : forall nw cast fmt asis sm st, cast_agrees cast ->
+  wf_summary nw asis sm = true ->
+  post_solutions nw cast fmt asis st (CsvRecords (marshal_records (map fst asis) sm)) =
   Ok (S200, loaded cast asis sm []).
 Proof.
-  intros cast fmt asis sm st Hc Hwf.
-  apply (post_ok cast fmt asis Hc sm (wf_summary_inv asis sm Hwf) st).
+  intros nw cast fmt asis sm st Hc Hwf.
+  apply (post_ok nw cast fmt asis Hc sm (wf_summary_inv nw asis sm Hwf) st).
 Qed.
 
-Lemma c13_lookup_exact : forall cast fmt asis sm pool r, cast_agrees cast ->
-  wf_summary asis sm = true ->
+Lemma c13_lookup_exact : forall nw cast fmt asis sm pool r, cast_agrees cast ->
+  wf_summary nw asis sm = true ->
   In r (tl sm) -> assoc (r_label r) pool = None ->
   get_solution fmt (loaded cast asis sm pool) (r_label r) =
   Ok (Decoded (r_enc r) (r_note r), loaded cast asis sm ((r_label r, (r_enc r, r_note r)) :: pool)).
 Proof.
-  intros cast fmt asis sm pool r Hc Hwf Hin Hp. destruct (in_tl_nth sm r Hin) as [i Hi].
-  apply (get_row cast fmt asis Hc sm (wf_summary_inv asis sm Hwf) i r pool Hi Hp).
+  intros nw cast fmt asis sm pool r Hc Hwf Hin Hp. destruct (in_tl_nth sm r Hin) as [i Hi].
+  apply (get_row nw cast fmt asis Hc sm (wf_summary_inv nw asis sm Hwf) i r pool Hi Hp).
 Qed.
 
-Lemma c13_lookup_again : forall cast fmt asis sm pool r, cast_agrees cast ->
-  wf_summary asis sm = true ->
+Lemma c13_lookup_again : forall nw cast fmt asis sm pool r, cast_agrees cast ->
+  wf_summary nw asis sm = true ->
   In r (tl sm) -> assoc (r_label r) pool = None ->
   exists st', get_solution fmt (loaded cast asis sm pool) (r_label r) = Ok (Decoded (r_enc r) (r_note r), st') /\
     get_solution fmt st' (r_label r) = Ok (Decoded (r_enc r) (r_note r), st').
 Proof.
-  intros cast fmt asis sm pool r Hc Hwf Hin Hp. destruct (in_tl_nth sm r Hin) as [i Hi].
+  intros nw cast fmt asis sm pool r Hc Hwf Hin Hp. destruct (in_tl_nth sm r Hin) as [i Hi].
   eexists. split.
-  - apply (get_row cast fmt asis Hc sm (wf_summary_inv asis sm Hwf) i r pool Hi Hp).
-  - apply (get_cached cast fmt asis sm (wf_summary_inv asis sm Hwf) i r _ _ _ Hi).
+  - apply (get_row nw cast fmt asis Hc sm (wf_summary_inv nw asis sm Hwf) i r pool Hi Hp).
+  - apply (get_cached nw cast fmt asis sm (wf_summary_inv nw asis sm Hwf) i r _ _ _ Hi).
     cbn [assoc]. rewrite String.eqb_refl. reflexivity.
 Qed.
 
-Lemma c13_lookup_asis : forall cast fmt asis sm pool,
-  wf_summary asis sm = true ->
+Lemma c13_lookup_asis : forall nw cast fmt asis sm pool,
+  wf_summary nw asis sm = true ->
   get_solution fmt (loaded cast asis sm pool) "As-Is" = Ok (AsIsSolution, loaded cast asis sm pool).
 Proof.
-  intros cast fmt asis sm pool Hwf. apply (get_asis cast fmt asis sm (wf_summary_inv asis sm Hwf) pool).
+  intros nw cast fmt asis sm pool Hwf. apply (get_asis nw cast fmt asis sm (wf_summary_inv nw asis sm Hwf) pool).
 Qed.
 
 Lemma c13_lookup_unknown : forall cast fmt asis sm pool label,
@@ -612,34 +633,108 @@ Proof.
   apply (get_unknown cast fmt asis sm pool label Hno).
 Qed.
 
-Lemma c13_front_member : forall cast fmt asis recode sm pool r, cast_agrees cast ->
-  wf_summary asis sm = true ->
+Lemma c13_front_member : forall nw cast fmt asis recode sm pool r, cast_agrees cast ->
+  wf_summary nw asis sm = true ->
   In r (tl sm) -> recode (r_enc r) = Some (r_enc r) ->
   pareto_member fmt recode (loaded cast asis sm pool) (r_enc r) = Ok (Some (Some true)).
 Proof.
-  intros cast fmt asis recode sm pool r Hc Hwf Hin Hre. destruct (in_tl_nth sm r Hin) as [i Hi].
-  apply (pareto_row cast fmt asis sm (wf_summary_inv asis sm Hwf) recode pool i r Hi Hre).
+  intros nw cast fmt asis recode sm pool r Hc Hwf Hin Hre. destruct (in_tl_nth sm r Hin) as [i Hi].
+  apply (pareto_row nw cast fmt asis sm (wf_summary_inv nw asis sm Hwf) recode pool i r Hi Hre).
 Qed.
 
-Lemma c13_front_non_member : forall cast fmt asis recode sm pool e e', cast_agrees cast ->
-  wf_summary asis sm = true ->
+Lemma c13_front_non_member : forall nw cast fmt asis recode sm pool e e', cast_agrees cast ->
+  wf_summary nw asis sm = true ->
   recode e = Some e' -> (forall r, In r (tl sm) -> r_enc r <> e') ->
   pareto_member fmt recode (loaded cast asis sm pool) e = Ok (Some (Some false)).
 Proof.
-  intros cast fmt asis recode sm pool e e' Hc Hwf Hre Hno.
-  apply (pareto_non_member cast fmt asis sm (wf_summary_inv asis sm Hwf) recode pool e e' Hre Hno).
+  intros nw cast fmt asis recode sm pool e e' Hc Hwf Hre Hno.
+  apply (pareto_non_member nw cast fmt asis sm (wf_summary_inv nw asis sm Hwf) recode pool e e' Hre Hno).
 Qed.
 
 (* ANY engine state (any earlier summary, any pooled solutions): POST then GET *)
-Lemma c13_round_trip : forall cast fmt asis sm st r, cast_agrees cast ->
-  wf_summary asis sm = true -> In r (tl sm) ->
+Lemma c13_round_trip : forall nw cast fmt asis sm st r, cast_agrees cast ->
+  wf_summary nw asis sm = true -> In r (tl sm) ->
   exists st' st'',
-    post_solutions cast fmt asis st (CsvRecords (marshal_records (map fst asis) sm)) = Ok (S200, st') /\
+    post_solutions nw cast fmt asis st (CsvRecords (marshal_records (map fst asis) sm)) = Ok (S200, st') /\
     get_solution fmt st' (r_label r) = Ok (Decoded (r_enc r) (r_note r), st'').
 Proof.
-  intros cast fmt asis sm st r Hc Hwf Hin. eexists. eexists. split.
-  - apply (c13_accepts cast fmt asis sm st Hc Hwf).
-  - apply (c13_lookup_exact cast fmt asis sm [] r Hc Hwf Hin). reflexivity.
+  intros nw cast fmt asis sm st r Hc Hwf Hin. eexists. eexists. split.
+  - apply (c13_accepts nw cast fmt asis sm st Hc Hwf).
+  - apply (c13_lookup_exact nw cast fmt asis sm [] r Hc Hwf Hin). reflexivity.
+Qed.
+
+(* ---------- the decodability clause: what it means, and that explorer-written encodings meet it (C09) ---------- *)
+
+Lemma actions_decodable_is_decode_accepts : forall nw s,
+  actions_decodable nw s = BoolArchiveProofs.decode_accepts nw s.
+Proof. reflexivity. Qed.
+
+(* the guard IS BooleanArchive.Decode's verdict: on any well-formed archive, Decode answers (_, actions_decodable ...),
+   and a refused text leaves the archive as it was *)
+Lemma actions_decodable_decode : forall a s, BoolArchiveProofs.wf a ->
+  exists a', BoolArchive.decode a s = Ok (a', actions_decodable (len (BoolArchive.a_words a)) s) /\
+    (actions_decodable (len (BoolArchive.a_words a)) s = false -> a' = a).
+Proof.
+  intros a s Hwf. destruct (BoolArchiveProofs.decode_spec a s Hwf) as [a' [E [_ [_ [_ Hrej]]]]].
+  exists a'. rewrite actions_decodable_is_decode_accepts. split; assumption.
+Qed.
+
+(* every encoding the compressor writes for a model with n >= 1 actions decodes on a model with n actions *)
+Lemma explorer_encoding_decodable : forall bs, bs <> [] ->
+  actions_decodable (BoolArchive.nwords (len bs)) (snd (BoolArchive.encoding (BoolArchive.of_bits bs))) = true.
+Proof.
+  intros bs Hne. rewrite BoolArchiveProofs.encoding_fresh by reflexivity. cbn [snd].
+  destruct (BoolArchiveProofs.of_bits_wf bs) as [HL [Hlt _]].
+  cbn [BoolArchive.a_words BoolArchive.a_size BoolArchive.of_bits] in *.
+  rewrite actions_decodable_is_decode_accepts. rewrite <- HL.
+  apply BoolArchiveProofs.accepts_own_encoding; [|exact Hlt].
+  intro Hnil. rewrite Hnil in HL. cbn [len] in HL.
+  pose proof (BoolArchiveProofs.nwords_bounds (len bs)) as [Hb _]. destruct bs; [congruence|cbn [len] in *; lia].
+Qed.
+
+(* a summary all of whose Actions texts were written by the compressor of a model with n actions *)
+Definition explorer_encoded (n : nat) (sm : list srow) : Prop :=
+  forall r, In r sm -> exists bs, len bs = n /\ r_enc r = snd (BoolArchive.encoding (BoolArchive.of_bits bs)).
+
+Lemma wf_summary_split : forall nw asis sm,
+  wf_summary nw asis sm = true <->
+  wf_summary_shape asis sm = true /\ (forall r, In r sm -> actions_decodable nw (r_enc r) = true).
+Proof.
+  intros nw asis [|r0 rest]; cbn [wf_summary wf_summary_shape].
+  - split; [discriminate|intros [H _]; discriminate].
+  - set (sm := r0 :: rest).
+    assert (Hrows : forallb (row_ok nw (len asis)) sm = true <->
+                    forallb (row_shape_ok (len asis)) sm = true /\ (forall r, In r sm -> actions_decodable nw (r_enc r) = true)).
+    { rewrite !forallb_forall. split.
+      - intro H. split; intros r Hin; specialize (H r Hin); unfold row_ok in H; apply andb_prop in H; tauto.
+      - intros [H1 H2] r Hin. unfold row_ok. rewrite (H1 r Hin), (H2 r Hin). reflexivity. }
+    split.
+    + intro H. repeat (apply andb_prop in H; destruct H as [H ?]).
+      match goal with Hf : forallb (row_ok _ _) _ = true |- _ => apply Hrows in Hf; destruct Hf as [Hf1 Hf2] end.
+      split; [|exact Hf2]. rewrite Hf1. repeat match goal with Hx : ?b = true |- context [?b] => rewrite Hx end. reflexivity.
+    + intros [H Hd]. repeat (apply andb_prop in H; destruct H as [H ?]).
+      assert (Hr : forallb (row_ok nw (len asis)) sm = true) by (apply Hrows; split; assumption).
+      rewrite Hr. repeat match goal with Hx : ?b = true |- context [?b] => rewrite Hx end. reflexivity.
+Qed.
+
+Lemma wf_explorer_summary : forall n asis sm, 1 <= n ->
+  wf_summary_shape asis sm = true -> explorer_encoded n sm ->
+  wf_summary (BoolArchive.nwords n) asis sm = true.
+Proof.
+  intros n asis sm Hn Hshape Henc. apply wf_summary_split. split; [exact Hshape|].
+  intros r Hin. destruct (Henc r Hin) as [bs [Hl ->]]. rewrite <- Hl.
+  apply explorer_encoding_decodable. intro Hnil. subst bs. cbn [len] in Hl. lia.
+Qed.
+
+(* explorer-written summaries: no hypothesis on the encodings beyond having been written by the compressor *)
+Lemma c13_round_trip_explorer : forall n cast fmt asis sm st r, cast_agrees cast -> 1 <= n ->
+  wf_summary_shape asis sm = true -> explorer_encoded n sm -> In r (tl sm) ->
+  exists st' st'',
+    post_solutions (BoolArchive.nwords n) cast fmt asis st (CsvRecords (marshal_records (map fst asis) sm)) = Ok (S200, st') /\
+    get_solution fmt st' (r_label r) = Ok (Decoded (r_enc r) (r_note r), st'').
+Proof.
+  intros n cast fmt asis sm st r Hc Hn Hshape Henc Hin.
+  apply (c13_round_trip (BoolArchive.nwords n) cast fmt asis sm st r Hc (wf_explorer_summary n asis sm Hn Hshape Henc) Hin).
 Qed.
 
 (* ---------- the former refutation witnesses of defect D9 and of the stale pool now round-trip ---------- *)
@@ -652,8 +747,8 @@ Definition ex_summary (enc : string) : list srow := [ex_row0; ex_row1 enc].
 (* executable: from engine state [st], POST the summary whose one solution row has encoding [enc], GET its label,
    set the model from its encoding; true iff 200, the row's own encoding and note come back, and it is a front member *)
 Definition ex_round_trips_from (st : state) (enc : string) : bool :=
-  wf_summary ex_asis (ex_summary enc) &&
-  match post_solutions model_cast model_fmt ex_asis st (CsvRecords (marshal_records (map fst ex_asis) (ex_summary enc))) with
+  wf_summary 1 ex_asis (ex_summary enc) &&
+  match post_solutions 1 model_cast model_fmt ex_asis st (CsvRecords (marshal_records (map fst ex_asis) (ex_summary enc))) with
   | Ok (S200, st') =>
     match get_solution model_fmt st' "1-of-1" with
     | Ok (Decoded e s, _) => String.eqb e enc && String.eqb s "Pareto front member 1 of 1"
@@ -666,9 +761,18 @@ Definition ex_round_trips_from (st : state) (enc : string) : bool :=
   | _ => false
   end.
 
+(* executable: a summary that is well-formed except that its solution row's Actions text does not decode for the
+   scenario (one archive word) is refused with 400 and the engine state is untouched *)
+Definition ex_refused (enc : string) : bool :=
+  wf_summary_shape ex_asis (ex_summary enc) && negb (actions_decodable 1 enc) &&
+  match post_solutions 1 model_cast model_fmt ex_asis fresh (CsvRecords (marshal_records (map fst ex_asis) (ex_summary enc))) with
+  | Ok (S400, st) => true
+  | _ => false
+  end.
+
 (* an engine that has already served label 1-of-1 of ANOTHER summary (encoding 3) *)
 Definition ex_used_state : state :=
-  match post_solutions model_cast model_fmt ex_asis fresh (CsvRecords (marshal_records (map fst ex_asis) (ex_summary "3"))) with
+  match post_solutions 1 model_cast model_fmt ex_asis fresh (CsvRecords (marshal_records (map fst ex_asis) (ex_summary "3"))) with
   | Ok (_, st1) => match get_solution model_fmt st1 "1-of-1" with Ok (_, st2) => st2 | Panic => fresh end
   | Panic => fresh
   end.
